@@ -66,6 +66,7 @@ func CheckTokenGame(pfx string, prog *Program, hist []simlog.Ev) *TokenGameResul
 	fired := map[string]bool{}
 	allFired := func() bool { return len(fired) >= nStarts }
 	visitsEnd := map[string]int{}
+	landmarks := map[string]int{}
 	var errs []string
 	var finalVars map[string]any
 	cancelled := false
@@ -150,6 +151,8 @@ func CheckTokenGame(pfx string, prog *Program, hist []simlog.Ev) *TokenGameResul
 					vl.add(pfx+"/harness", "step %d: %s", ev.Step, e)
 				}
 			}
+		case "t:landmark":
+			landmarks[ev.A]++
 		case "t:visit":
 			if n := g.Node(ev.A); n != nil && n.Kind == "end" {
 				visitsEnd[ev.A]++
@@ -229,6 +232,24 @@ func CheckTokenGame(pfx string, prog *Program, hist []simlog.Ev) *TokenGameResul
 	for _, k := range ks {
 		if visitsEnd[k] != m.Ends[k] {
 			vl.add(pfx+"/end-events", "end event %s reached %d time(s), token game says %d (all: engine=%v model=%v)", k, visitsEnd[k], m.Ends[k], visitsEnd, m.Ends)
+		}
+	}
+	// one landmark trace per completed sub-process activation, at every nesting depth
+	if len(vl.v) == 0 && !hasOpenSubFinding(prog) {
+		var subs []string
+		for k := range m.SubDone {
+			subs = append(subs, k)
+		}
+		for k := range landmarks {
+			if _, ok := m.SubDone[k]; !ok {
+				subs = append(subs, k)
+			}
+		}
+		sort.Strings(subs)
+		for _, k := range subs {
+			if landmarks[k] != m.SubDone[k] {
+				vl.add(pfx+"/landmark-count", "sub-process %s: ProcessLandMarkTrace seen %d time(s), in the token game the parent's token left it %d time(s)", k, landmarks[k], m.SubDone[k])
+			}
 		}
 	}
 	// completion
@@ -319,4 +340,22 @@ func CheckTokenGame(pfx string, prog *Program, hist []simlog.Ev) *TokenGameResul
 	}
 	res.Viol = vl.v
 	return res
+}
+
+// hasOpenSubFinding: programs in which a sub-process sits in a loop, or is interrupted by a boundary event, run
+// into open known findings; their landmark counts are not compared.
+func hasOpenSubFinding(prog *Program) bool {
+	for _, t := range prog.Tags {
+		if t == "sub-in-loop" {
+			return true
+		}
+	}
+	for _, g := range prog.Defs.Procs {
+		for _, n := range g.Nodes {
+			if n.Kind == "boundary" {
+				return true
+			}
+		}
+	}
+	return false
 }
